@@ -14,6 +14,9 @@ pkg=$(python3 -c "import json,sys;print(json.load(open('$D/meta.json')).get('pac
 prop=$(python3 -c "import json,sys;print(json.load(open('$D/meta.json'))['property'])")
 demo=$(ls "$D"/*_test.go 2>/dev/null | head -1)
 raceflag=""; if grep -q -- "-race" "$D/meta.json"; then raceflag="-race"; fi
+# run only the demonstration's own tests (the package may contain wall-clock sensitive tests)
+runpat=$(grep -ho "^func Test[A-Za-z0-9_]*" "$demo" 2>/dev/null | sed 's/^func //' | paste -sd'|')
+[ -n "$runpat" ] && raceflag="$raceflag -run ^($runpat)\$"
 [ $# -gt 0 ] || set -- "$prop"
 echo "== seed $D (property $prop, demo $(basename "$demo") in $pkg)"
 if [ -n "$demo" ]; then
